@@ -29,8 +29,10 @@ ASSUMPTIONS = [
 ]
 BUDGET = {"quick": 260, "thorough": 6000}
 PROFILE_CAL = gen.profile(crops=list(gen.CAL_CROPS) + ["Potato", "SugarBeet", "Tomato", "Quinoa"], seasons=(1, 3), max_days=650, p_custom_soil=0.15, p_gw=0.15, p_fm=0.3, pad=(0, 5))
-PROFILE_ANY = gen.profile(seasons=(1, 2), max_days=650, p_gdd=0.5, p_custom_soil=0.15, p_gw=0.15, p_fm=0.3, pad=(0, 5), p_co2=0.5,
-                          co2_kinds=["table", "table", "const"], start_years=(1995, 2032))
+PROFILE_ANY = gen.profile(seasons=(1, 2), max_days=650, p_gdd=0.5, p_custom_soil=0.15, p_gw=0.15, p_fm=0.3, pad=(0, 5))
+# extension pairs: CO2 tables with yearly / 5-yearly / decadal entries (interpolated), years where the default table is decadal
+PROFILE_EXT = gen.profile(seasons=(1, 2), max_days=650, p_gdd=0.3, p_custom_soil=0.15, p_gw=0.15, p_fm=0.3, pad=(0, 5), p_co2=0.6,
+                          co2_kinds=["table"], start_years=(1995, 2032))
 
 
 @st.composite
@@ -60,7 +62,7 @@ def cases(draw):
             else:
                 spec[c] = [draw(st.sampled_from([0.3, 1.0, 2.0])), float(draw(st.sampled_from([0, 1, 4])))]
         return dict(kind=kind, cfg=cfg, t=t, cols=spec)
-    cfg = draw(gen.configs(PROFILE_ANY))
+    cfg = draw(gen.configs(PROFILE_ANY if kind == "pad" else PROFILE_EXT))
     if kind == "pad":
         return dict(kind=kind, cfg=cfg, before=draw(st.integers(1, 400)), after=draw(st.integers(1, 400)),
                     value=float(draw(st.sampled_from([99.0, -50.0, 1e5]))))
